@@ -6,8 +6,8 @@
    multiplication algorithms, modular inverse, the 10x26 / 8x32 / struct-int128 / asm configurations,
    SHA-256/HMAC/RFC 6979) is tied by the differential correspondence of ./check C05 on a build matrix. *)
 From Coq Require Import ZArith List Bool.
-Require Import Kernel.CSem Kernel.Field5x52 Kernel.Field5x52Sqr Kernel.CtPrimitives Kernel.FieldNormalize Kernel.Scalar4x64 Kernel.ScalarMul512 Kernel.ScalarSqr512.
-Require Import Gen.fe_mul_inner Gen.fe_sqr_inner Gen.scalar_cmov Gen.fe_impl_cmov Gen.fe_impl_normalize Gen.scalar_check_overflow Gen.scalar_is_high Gen.scalar_mul_512 Gen.scalar_sqr_512.
+Require Import Kernel.CSem Kernel.Field5x52 Kernel.Field5x52Sqr Kernel.CtPrimitives Kernel.FieldNormalize Kernel.Scalar4x64 Kernel.ScalarMul512 Kernel.ScalarSqr512 Kernel.ScalarReduce512.
+Require Import Gen.fe_mul_inner Gen.fe_sqr_inner Gen.scalar_cmov Gen.fe_impl_cmov Gen.fe_impl_normalize Gen.scalar_check_overflow Gen.scalar_is_high Gen.scalar_mul_512 Gen.scalar_sqr_512 Gen.scalar_reduce_512.
 Import ListNotations.
 Local Open Scope Z_scope.
 
@@ -67,6 +67,17 @@ Theorem scalar_sqr_512_correct : forall a0 a1 a2 a3,
     val8 l0 l1 l2 l3 l4 l5 l6 l7 = val4 a0 a1 a2 a3 * val4 a0 a1 a2 a3).
 Proof. exact Kernel.ScalarSqr512.scalar_sqr_512_correct. Qed.
 Print Assumptions scalar_sqr_512_correct.
+(* Reduction of a 512-bit value modulo the group order n (three folding stages with 2^256 = n + N_C, then the
+   final conditional subtraction, secp256k1_scalar_reduce translated in place): for ALL limbs the result is the
+   canonical residue. Together with scalar_mul_512_correct: scalar multiplication is exact modulo n. *)
+Theorem scalar_reduce_512_correct : forall l0 l1 l2 l3 l4 l5 l6 l7,
+  0 <= l0 < 2^64 -> 0 <= l1 < 2^64 -> 0 <= l2 < 2^64 -> 0 <= l3 < 2^64 ->
+  0 <= l4 < 2^64 -> 0 <= l5 < 2^64 -> 0 <= l6 < 2^64 -> 0 <= l7 < 2^64 ->
+  scalar_reduce_512_k l0 l1 l2 l3 l4 l5 l6 l7 (fun r0 r1 r2 r3 =>
+    (0 <= r0 < 2^64 /\ 0 <= r1 < 2^64 /\ 0 <= r2 < 2^64 /\ 0 <= r3 < 2^64) /\
+    val4 r0 r1 r2 r3 = val8 l0 l1 l2 l3 l4 l5 l6 l7 mod N256).
+Proof. exact Kernel.ScalarReduce512.scalar_reduce_512_correct. Qed.
+Print Assumptions scalar_reduce_512_correct.
 Theorem N256_is_group_order : N256 = 0xFFFFFFFFFFFFFFFFFFFFFFFFFFFFFFFEBAAEDCE6AF48A03BBFD25E8CD0364141.
 Proof. reflexivity. Qed.
 
